@@ -32,6 +32,7 @@ func (c12) Classes() []sim.Class {
 	for _, e := range []string{"interpreter", "compiler"} {
 		cs = append(cs, sim.Class{Name: "swarm", Engine: e, Quick: 700, Thorough: 40000, RunTimeoutSec: 120})
 		cs = append(cs, sim.Class{Name: "listener-sets-over-caches", Engine: e, Quick: 800, Thorough: 8000, RunTimeoutSec: 120})
+		cs = append(cs, sim.Class{Name: "snapshot-restore", Engine: e, Quick: 100, Thorough: 4000, RunTimeoutSec: 120})
 	}
 	return cs
 }
@@ -441,6 +442,9 @@ func callContained(f api.Function, ctx context.Context, args ...uint64) (res []u
 }
 
 func (c12) Run(t *tape.Tape, cfg sim.Config) (res sim.Result) {
+	if cfg.Class == "snapshot-restore" {
+		return runSnapshotRestore(t, cfg)
+	}
 	o := plan.Opts{MinFuncs: 3, MaxFuncs: 8, MaxAtoms: 6, Host: true, Traps: true, Grow: true, Table: true, Segments: true, HostTags: 4, GRef: true, Wide: true}
 	focus := cfg.Class == "listener-sets-over-caches"
 	if focus || t.Chance(1, 4) {
